@@ -46,12 +46,16 @@ type shapePlan struct {
 	shaper       shaperOpentype
 	props        SegmentProperties
 	userFeatures []Feature
+	// the value of the option [UniscribeBugCompatible] when the plan was compiled
+	// (the Indic and Khmer plans depend on it)
+	uniscribeBugCompatible bool
 }
 
 func (plan *shapePlan) init(copy bool, font *Font, props SegmentProperties,
 	userFeatures []Feature, coords []tables.Coord,
 ) {
 	plan.props = props
+	plan.uniscribeBugCompatible = UniscribeBugCompatible
 	if !copy {
 		plan.userFeatures = userFeatures
 	} else {
@@ -87,6 +91,7 @@ func (plan shapePlan) userFeaturesMatch(other shapePlan) bool {
 
 func (plan shapePlan) equal(other shapePlan) bool {
 	return plan.props == other.props && plan.userFeaturesMatch(other) &&
+		plan.uniscribeBugCompatible == other.uniscribeBugCompatible &&
 		plan.shaper.key == other.shaper.key // the variation indices depend on the face coordinates
 }
 
